@@ -129,6 +129,9 @@ def check_csv_read(ctx, case):
                 got = units_set(c)
                 if not discard and n_invalid:
                     ctx.fail("zero-length-row-not-rejected", {"invalid_rows": n_invalid}, monitor="M-CSV-READ")
+                elif sorted(c.annotators) != sorted({v[0] for v in valid}):
+                    ctx.fail("csv-annotators-differ-from-the-valid-rows", {"got": list(c.annotators), "expected": sorted({v[0] for v in valid}),
+                                                                         "discard_invalid_rows": discard}, monitor="M-CSV-READ")
                 elif got != valid:
                     ctx.fail("csv-units-differ-from-the-file", {"lost": sorted(valid - got, key=repr)[:3],
                                                                 "unexpected": sorted(got - valid, key=repr)[:3],
@@ -146,6 +149,9 @@ def check_csv_read(ctx, case):
 def gen_csv_read(rng):
     rows = set()
     anns = rng.sample(["alex", "bob", "carl d", "é"], rng.randint(1, 3))
+    if rng.random() < 0.4:      # an annotator all of whose rows are invalid: it must not appear at all
+        s0 = rand_time(rng)
+        rows.add(("ghost", "lab", s0, s0))
     for _ in range(rng.randint(1, 12)):
         s = rand_time(rng)
         r = rng.random()
@@ -242,7 +248,8 @@ def check_textgrid(ctx, case):
 
 
 def gen_textgrid(rng):
-    names = rng.sample(["words", "phones", "tier three", "ünï", "T4"], rng.randint(1, 4))
+    names = rng.sample(["words", "phones", "tier three", "ünï", "T4", "spk[1]", "spk1", "*", "words?", "wordsX", "a.b", "(x)"],
+                       rng.randint(1, 5))
     tiers = []
     for name in names:
         t = 0.0
@@ -296,7 +303,7 @@ def check_elan(ctx, case):
 
 
 def gen_elan(rng):
-    names = rng.sample(["speech", "gesture", "tier ü", "T-4"], rng.randint(1, 3))
+    names = rng.sample(["speech", "gesture", "tier ü", "T-4", "spk[1]", "spk1", "*", "gest?", "gestX"], rng.randint(1, 4))
     tiers = []
     for name in names:
         anns = set()
